@@ -115,6 +115,18 @@ CHECKS = {
             "Exhaustive model checking (2.5M-9.5M states) of reconstruction and cache transparency; every short evaluation history replayed on the real code for "
             "7 cache kinds and 3 value types with cache hits, results and the reconstruction identity judged by TLC; deep trees by seeded histories.",
             "PRG opaque; histories enumerated for depth <= 3 (4 in thorough), sampled for deeper trees."),
+    "C03": ("DESIGN.md#c03--poplar1-end-to-end",
+            "TLA+ share-level model of the Poplar1 sketch (Poplar1.tla) checked for all verification randomness; trace validation of real Poplar1 runs with a "
+            "recording XOF: exact XOF queries, message structure, sketch arithmetic through BigNat witnesses, exact counts, heavy hitters",
+            "Completeness of the two-round sketch for every randomness on the model; real executions for bit lengths 1..8 (all levels, admissible sequences, heavy "
+            "hitters) and 64/300/21850(/65536) bits at boundary levels validated event by event.",
+            "IDPF shares opaque (C06); deployed fields through witnesses."),
+    "C04": ("DESIGN.md#c04--poplar1-robustness",
+            "Poplar1.tla model: exact characterization of the reports accepted for every randomness and accept-set bound for all others (TLC over GF(17)); trace "
+            "validation of tampered real runs: whenever both aggregators finish, the output shares sum to a zero or one-hot vector",
+            "Exact accept-set analysis on the model; on the real code every explored single-bit alteration of every message either is refused or leaves a zero/one-hot "
+            "contribution, as judged by TLC from the recorded shares.",
+            "Bit flips only on the real code; re-programmed client strategies on the model only."),
 }
 
 NOT_YET = {}
